@@ -247,6 +247,9 @@ def standin(tier, seed):
             if ev == "unknown" or not self.live:
                 return 99999, 0
             pid = self.live.pop(idx % len(self.live))
+            if ev == "sig":
+                # death by a signal, whichever: a named one, one with the core flag, an unnamed real-time one (Linux 35..63 have no entry in signal.Signals)
+                return pid, (9, 40, 11 | 0x80, 63, 15)[self.k % 5]
             return pid, STATUS[ev]
 
     def reference(n, budget, history):
@@ -288,6 +291,8 @@ def standin(tier, seed):
                                 got = ("giveup",)
                             except KeyboardInterrupt:
                                 got = ("running",)
+                            except Exception as e:      # noqa: B902  (the supervisor itself must not fall over an exit status)
+                                got = ("raised-%s" % type(e).__name__,)
                         finally:
                             P.os, P._reseed_random = saved_os, saved_rs
                             P._task_id = None
